@@ -46,6 +46,17 @@ Theorem C07_next_is_reduced_function : forall sub hasm chk fresh, Refl sub -> An
 Proof. exact next_is_reduced_function. Qed.
 Print Assumptions C07_next_is_reduced_function.
 
+(* the whole walk: when every candidate of the call dominates all the candidates sorted after it (no tie anywhere),
+   the call runs the first candidate, call_next from the i-th runs the (i+1)-th, and from the last one it reports
+   'No method' -- each applicable method is visited at most once, in non-increasing rank *)
+Theorem C07_walk_in_sorted_order : forall sub hasm chk fresh ms k cs,
+  candidates sub hasm chk fresh ms k = Ok cs -> NoDup (map cid cs) -> total_chain (sort_desc cs) ->
+  lookup sub hasm chk fresh ms k = match sort_desc cs with [] => ONoMethod | c1 :: _ => ORun (cid c1) end /\
+  forall pre c suf, sort_desc cs = pre ++ c :: suf ->
+    lookup_next sub hasm chk fresh ms (cid c) k = match suf with [] => ONoMethod | c2 :: _ => ORun (cid c2) end.
+Proof. exact walk_in_sorted_order. Qed.
+Print Assumptions C07_walk_in_sorted_order.
+
 (* when the current method is not applicable to args, call_next behaves like a fresh call *)
 Theorem C07_foreign_caller : forall sub hasm chk fresh ms k cs caller,
   candidates sub hasm chk fresh ms k = Ok cs -> (forall c, In c cs -> cid c <> caller) ->
